@@ -551,8 +551,12 @@ class MailboxWorld:
         entry = [kind, self.stepno, None]
         cl.late.append(entry)
         if not isinstance(d, Exception):
-            d.addCallbacks(lambda v: entry.__setitem__(2, ("ok", v)),
-                           lambda f: entry.__setitem__(2, ("err", f.value)))
+            def got(v):
+                entry[2] = ("ok", v)
+                if kind == "message" and cl.lazy:
+                    # for a lazy application these *are* the messages it receives, in the order it asked for them
+                    cl.ev("message", v)
+            d.addCallbacks(got, lambda f: entry.__setitem__(2, ("err", f.value)))
 
     def _do_AppDerive(self, act):
         cl = self.clients[act["c"]]
